@@ -888,3 +888,156 @@ crash_ro!(c12_crash_before, 0);
 crash_ro!(c12_crash_after_slot1, 1);
 crash_ro!(c12_crash_after_slot0, 2);
 crash_ro!(c12_crash_after_truncate, 3);
+
+// ------------------------------------------------- what the oplog *writes* for each operation
+
+/// `Oplog::clear(start, end)`: ONE write, at 8192 + bytes already pending, framing a bitfield-only
+/// entry {drop: true, start, length: end - start} (replayed on open as "drop exactly [start,end)"),
+/// carrying the current header bit.  One concrete (start, end, header bits) per instance: bytes
+/// under the CRC frame cannot be symbolic (DESIGN.md 10.2); the varint codec for all values is
+/// covered by c01_entry_clear_*.
+fn oplog_clear_entry<const START: u64, const END: u64, const B0: bool, const B1: bool>() {
+    let pending: u64 = kani::any();
+    kani::assume(pending < 1000);
+    let mut oplog = Oplog { header_bits: [B0, B1], entries_length: 3, entries_byte_length: pending };
+    let infos = oplog.clear(START, END).unwrap();
+    assert!(infos.len() == 1);
+    let i0 = &infos[0];
+    assert!(i0.store == Store::Oplog && i0.info_type == StoreInfoType::Content && !i0.miss);
+    assert!(i0.index == 8192 + pending);
+    let d = i0.data.as_ref().unwrap();
+    // leader: 4 CRC bytes, then len<<2 | partial<<1 | header bit; payload = flags 8, drop 1, start, length
+    assert!(d.len() == 8 + 4);
+    assert!(d[4] == ((4u8 << 2) | (if B0 != B1 { 1 } else { 0 })) && d[5] == 0 && d[6] == 0 && d[7] == 0);
+    assert!(d[8] == 8 && d[9] == 1);
+    assert!(d[10] as u64 == START);
+    assert!(d[11] as u64 == END - START);
+    // and it is what open replays: decode the payload back
+    let (e, rest) = Entry::decode(&d[8..]).unwrap();
+    assert!(rest.is_empty());
+    assert!(e.bitfield == Some(BitfieldUpdate { drop: true, start: START, length: END - START }));
+    assert!(e.tree_nodes.is_empty() && e.tree_upgrade.is_none());
+    assert!(oplog.entries_length == 4 && oplog.entries_byte_length == pending + 12);
+    kani::cover!(true, "reached end");
+    std::mem::forget(infos);
+    std::mem::forget(e);
+}
+
+macro_rules! clear_entry {
+    ($name:ident, $s:expr, $e:expr, $b0:expr, $b1:expr) => {
+        #[kani::proof]
+        #[kani::stub(std::fmt::format, stub_format)]
+        #[kani::stub(std::string::String::from_utf8, stub_from_utf8)]
+        fn $name() {
+            oplog_clear_entry::<$s, $e, $b0, $b1>();
+        }
+    };
+}
+clear_entry!(c01_oplog_clear_entry_2_4, 2, 4, false, false);
+clear_entry!(c01_oplog_clear_entry_0_1, 0, 1, true, false);
+clear_entry!(c01_oplog_clear_entry_100_252, 100, 252, false, true);
+
+/// `Oplog::flush(header, clear_traces = false)` and the header written when an oplog is created:
+/// exactly two operations IN THIS ORDER -- first the new header into the slot that is not the
+/// current one, then the truncation of the entries (they are folded into the header just written).
+/// Truncating first would lose acknowledged operations if the header write then fails or the
+/// process dies in between.  All four header-bit phases.
+#[kani::proof]
+#[kani::stub(std::fmt::format, stub_format)]
+#[kani::stub(std::string::String::from_utf8, stub_from_utf8)]
+fn c02_flush_header_then_truncate() {
+    let bits: [bool; 2] = [kani::any(), kani::any()];
+    let rh = base_header(2);
+    let header = header_from_ref(&rh);
+    let mut oplog = Oplog { header_bits: bits, entries_length: 2, entries_byte_length: 161 };
+    let infos = oplog.flush(&header, false).unwrap();
+    assert!(infos.len() == 2);
+    assert!(infos[0].store == Store::Oplog && infos[0].info_type == StoreInfoType::Content && !infos[0].miss);
+    // bits differ -> slot 0 is rewritten, bits equal -> slot 1
+    assert!(infos[0].index == if bits[0] != bits[1] { 0 } else { 4096 });
+    assert!(infos[0].data.as_ref().unwrap().len() < 4096);
+    assert!(infos[1].store == Store::Oplog && infos[1].info_type == StoreInfoType::Size && infos[1].miss && infos[1].index == 8192);
+    assert!(oplog.entries_length == 0 && oplog.entries_byte_length == 0);
+    // the new header's bit makes its slot the current one: equal bits afterwards <=> slot 0 written
+    assert!((oplog.header_bits[0] == oplog.header_bits[1]) == (bits[0] != bits[1]));
+    kani::cover!(true, "reached end");
+    std::mem::forget(infos);
+}
+
+/// Creating an oplog (`Oplog::open` on empty storage with a key pair): header into slot 0 first,
+/// then the file is cut at 8192.
+#[kani::proof]
+#[kani::stub(std::fmt::format, stub_format)]
+#[kani::stub(std::string::String::from_utf8, stub_from_utf8)]
+fn c02_fresh_header_then_truncate() {
+    let kp = Some(kp_from(PK, Some(SK)));
+    let out = match Oplog::open(&kp, Some(StoreInfo::new_content(Store::Oplog, 0, &[]))).unwrap() {
+        Either::Right(o) => o,
+        Either::Left(_) => unreachable!(),
+    };
+    let infos = &out.infos_to_flush;
+    assert!(infos.len() == 2);
+    assert!(infos[0].info_type == StoreInfoType::Content && !infos[0].miss && infos[0].index == 0);
+    assert!(infos[1].info_type == StoreInfoType::Size && infos[1].miss && infos[1].index == 8192);
+    assert!(out.oplog.entries_length == 0 && out.oplog.entries_byte_length == 0);
+    kani::cover!(true, "reached end");
+    std::mem::forget(out);
+}
+
+/// `Oplog::append_changeset` for an appended block: the entry written is
+/// {nodes = changeset.nodes, upgrade = (fork, ancestors, length, signature), bitfield = the update
+/// passed in}, at 8192 + pending bytes, and the returned header carries the changeset's root hash,
+/// signature and length.  One concrete changeset (distinct byte patterns per field); the byte
+/// positions compared are symbolic.
+#[kani::proof]
+#[kani::stub(std::fmt::format, stub_format)]
+#[kani::stub(std::string::String::from_utf8, stub_from_utf8)]
+fn c01_oplog_append_changeset_entry() {
+    use crate::tree::MerkleTreeChangeset;
+    // concrete, pairwise different contents (bytes under the CRC frame cannot be symbolic)
+    let node = cnode(4, 3, 0x44);
+    let mut root_hash = [0x55u8; 32];
+    root_hash[0] = 0x56;
+    let mut sig = [0u8; 64];
+    let mut q = 0;
+    while q < 64 {
+        sig[q] = 0x80 + q as u8;
+        q += 1;
+    }
+    let mut cs = MerkleTreeChangeset::new(2, 7, 0, vec![]);
+    cs.nodes = vec![node.clone()];
+    cs.batch_length = 1;
+    cs.ancestors = 2;
+    cs.length = 3;
+    cs.byte_length = 10;
+    cs.upgraded = true;
+    cs.hash = Some(root_hash.to_vec().into_boxed_slice());
+    cs.signature = Some(ed25519_dalek::Signature::from_bytes(&sig));
+    let header = header_from_ref(&base_header(2));
+    let mut oplog = Oplog { header_bits: [true, false], entries_length: 1, entries_byte_length: 50 };
+    let upd = BitfieldUpdate { drop: false, start: 2, length: 1 };
+    let out = oplog.append_changeset(&cs, Some(upd.clone()), false, &header).unwrap();
+    // header handed back to core.rs
+    assert!(out.header.tree.length == 3);
+    assert!(out.header.tree.root_hash.len() == 32 && out.header.tree.signature.len() == 64);
+    let k: usize = kani::any();
+    kani::assume(k < 32);
+    assert!(out.header.tree.root_hash[k] == root_hash[k]);
+    let m: usize = kani::any();
+    kani::assume(m < 64);
+    assert!(out.header.tree.signature[m] == sig[m]);
+    // the write
+    assert!(out.infos_to_flush.len() == 1);
+    let i0 = &out.infos_to_flush[0];
+    assert!(i0.store == Store::Oplog && i0.info_type == StoreInfoType::Content && !i0.miss && i0.index == 8192 + 50);
+    let d = i0.data.as_ref().unwrap();
+    let mut r = W::<256>::new();
+    let n = ref_entry_at(&mut r, 0, &RefEntry { nodes: &[node], upgrade: Some((0, 2, 3, &sig)), bitfield: Some((false, 2, 1)), bf_present: true }, false, true);
+    assert!(d.len() == n);
+    let j: usize = kani::any();
+    kani::assume(j >= 4 && j < n); // bytes 0..4 are the CRC (covered by c06_leader_entry)
+    assert!(d[j] == r.buf[j]);
+    assert!(oplog.entries_length == 2 && oplog.entries_byte_length == 50 + n as u64);
+    kani::cover!(true, "reached end");
+    std::mem::forget(out);
+}
